@@ -45,6 +45,8 @@ def fin_reads(nds, pool, rng=None):
         for d in sc.DS_NAMES[:nds]:
             ops.append({"op": "get", "id": sc.NS + i, "datasets": [d], "merge": True})
         ops.append({"op": "get", "id": sc.NS + i, "datasets": [], "merge": False})
+        if nds > 1:
+            ops.append({"op": "get", "id": sc.NS + i, "datasets": [], "merge": True})   # merged references over all datasets
         if nds > 2:
             ops.append({"op": "get", "id": sc.NS + i, "datasets": ["a", "c"], "merge": False})
     return ops
@@ -59,7 +61,25 @@ def witness_cases():
     race = {"datasets": ["a"], "ops": [{"op": "batch", "ds": "a", "ents": [sc.with_id("e1", A)]},
                                        {"op": "race", "ds": "a", "ents": [sc.with_id("e1", B)], "second": [sc.with_id("e1", C)],
                                         "pause_at": "lock.wait", "reader": "rx", "limit": 0}] + fin_reads(1, ["e1"])}
-    return [race,
+    R1 = {"props": {"p1": "a"}, "refs": {"r1": "e2"}}
+    R2 = {"props": {"p1": "b"}, "refs": {"r1": "e3"}}
+    R3 = {"props": {"p1": "bb"}, "refs": {"r1": ["e4", "e5"], "r2": "e2"}}
+    merged = {"datasets": ["a", "b", "c"], "ops": [{"op": "batch", "ds": "a", "ents": [sc.with_id("e1", R1)]},
+                                                   {"op": "batch", "ds": "b", "ents": [sc.with_id("e1", R2)]},
+                                                   {"op": "batch", "ds": "c", "ents": [sc.with_id("e1", R3)]}] + fin_reads(3, ["e1"])}
+    # internal ids are global: after ~240 filler ids in dataset b, the 30 entities of dataset a straddle the byte
+    # boundary 0xFF -> 0x100 of the latest-pointer key; a is then listed one by one, by 2, by 7 and unpaged
+    big = {"datasets": ["a", "b"], "ops": [
+        {"op": "batch", "ds": "b", "ents": [sc.with_id("e%d" % i, {"props": {"p1": i % 7}, "refs": {}}) for i in range(100, 340)]},
+        {"op": "batch", "ds": "a", "ents": [sc.with_id("e%d" % i, {"props": {"p1": i % 5}, "refs": {}}) for i in range(1, 31)]},
+        {"op": "entities", "ds": "a", "limits": [1]}, {"op": "entities", "ds": "a", "limits": [2]},
+        {"op": "entities", "ds": "a", "limits": [7]}, {"op": "entities", "ds": "a", "limits": [0]}]}
+    nullprop = {"datasets": ["a"], "ops": [{"op": "batch", "ds": "a", "ents": [sc.with_id("e1", sc.NULLPAIR[0])]},
+                                           {"op": "batch", "ds": "a", "ents": [sc.with_id("e1", sc.NULLPAIR[1])]}] + fin_reads(1, ["e1"])}
+    txnrace = {"datasets": ["a"], "ops": [{"op": "batch", "ds": "a", "ents": [sc.with_id("e1", A)]},
+                                          {"op": "race", "ds": "a", "ents": [sc.with_id("e1", B)], "second": [sc.with_id("e1", C)],
+                                           "pause_at": "lock.wait", "first_txn": True, "reader": "rx", "limit": 0}] + fin_reads(1, ["e1"])}
+    return [race, txnrace, merged, big, nullprop,
         # F01a: un-delete with a 15-byte property is dropped: listing and lookup keep the deleted version
         {"datasets": ["a"], "ops": [{"op": "batch", "ds": "a", "ents": [sc.with_id("e1", old)]},
                                     {"op": "batch", "ds": "a", "ents": [sc.with_id("e1", new)]}] + fin_reads(1, ["e1"])},
